@@ -58,8 +58,9 @@ def _evict(keep):
     for e in ents[2:]:
         shutil.rmtree(e, ignore_errors=True)
 
-def extract(config="default", repo=REPO, keep_target=False, log=None):
+def extract(config="default", repo=None, keep_target=False, log=None):
     """returns dict(dir=<facts dir>, files=[...], target=<target dir or None>, cached=bool, wall_s=..)"""
+    repo = repo or os.environ.get("MAY_REPO", "/repo")
     ensure_driver()
     t0 = time.time()
     th = tree_hash(repo)
